@@ -433,7 +433,11 @@ func runC14(c *hc.Ctx) error {
 		for i, id := range ids {
 			idl[i] = hc.CoqZ(int64(id))
 		}
-		buf.add(fmt.Sprintf("MkCase %s %s %s %s %s", b.coq, hc.CoqList(pc), hc.CoqList(idl), cls[bq], cls[bv]),
+		addCase := buf.add
+		if len(ps) == 0 {
+			addCase = buf.addFirst
+		}
+		addCase(fmt.Sprintf("MkCase %s %s %s %s %s", b.coq, hc.CoqList(pc), hc.CoqList(idl), cls[bq], cls[bv]),
 			map[string]any{"set": b.name, "perturbations": pd, "ids": ids, "IsQuadTree": qc + " " + qm, "validate": bv + " " + vm, "binary": useBinary})
 		if len(ps) == 1 && len(c.Sum.Samples) < 6 && c.Rng.Intn(300) == 0 {
 			c.Sample(map[string]any{"set": b.name, "perturbation": pd[0], "IsQuadTree": qc, "message": qm})
